@@ -497,12 +497,26 @@ def run_check(prop, tier='quick', seed=0, replay=None, budget=None):
                 return f
         return None
 
+    def unmodelled(c, o):
+        # an open finding whose (narrow, input-defined) class lies outside what this property's model covers
+        # ("model_mirrors": false in known_findings.json): inside it the oracle alone judges
+        for f in open_f:
+            if f.get('model_mirrors') is False:
+                pred = prop.finding_preds.get(f['signature']['pred'])
+                if pred and pred(c, o):
+                    return f
+        return None
+
     counts = {}
     kinds = {}
     spec_bad = []
     diffs = []
     known_hits = {}
+    n_unmodelled = 0
     for (c, o), v in zip(items, verdicts):
+        if v in ('VBoth', 'VDiff') and unmodelled(c, o) is not None:
+            v = 'VSpec' if v == 'VBoth' else 'VOk'
+            n_unmodelled += 1
         counts[v] = counts.get(v, 0) + 1
         k = prop.kind(c, o)
         kinds[k] = kinds.get(k, 0) + 1
@@ -539,6 +553,9 @@ def run_check(prop, tier='quick', seed=0, replay=None, budget=None):
                 break
             n_widened += len(its)
             for (c, o), v in zip(its, vs):
+                if v in ('VBoth', 'VDiff') and unmodelled(c, o) is not None:
+                    v = 'VSpec' if v == 'VBoth' else 'VOk'
+                    n_unmodelled += 1
                 counts[v] = counts.get(v, 0) + 1
                 if v in ('VSpec', 'VBoth'):
                     f = matches_open(c, o)
@@ -647,6 +664,7 @@ def run_check(prop, tier='quick', seed=0, replay=None, budget=None):
             'exhaustive': bool(exhaustive_desc), 'exhaustive_part': exhaustive_desc,
             'proofs_built': proofs_ok, 'model_built': model_ok, 'gen_failed': gen_failed,
             'gen_snapshot_used': tie_degraded, 'widened_correspondence_cases': n_widened,
+            'cases_judged_by_oracle_only_inside_an_unmodelled_open_finding_class': n_unmodelled,
             'tie': ('correspondence only: snapshot tables for ' + ', '.join(tie_degraded)) if tie_degraded
                    else 'translator (tables regenerated from the source on this run) and correspondence',
             'known_findings_seen': sorted(known_hits), 'notes': notes, 'coqchk': coqchk,
